@@ -224,6 +224,30 @@ static void roundTrip(vh::Reporter& rep, const std::string& cls, const T& x, Q&&
     g_phase = cls + ":repack";
     if (qx != qy) rep.violation("query-dump-differs:" + cls, cls + ": public queries answer differently after round trip " + sdump::firstDiff(qx, qy, 120).substr(0, 400), witness + "\n" + sdump::firstDiff(qx, qy));
     rep.count("query_dump_bytes", (long)qx.size());
+    // member by member: ScheduleState::operator== leaves several members out (bcprop, aqufluxs, pavg, gecon, rst_config ...), so
+    // every public member and getter is compared with its own operator== here
+    if constexpr (std::is_same_v<T, Schedule>) {
+        g_phase = cls + ":member-wise";
+        auto eqp = [](const auto& a, const auto& b) { return a.get() == b.get(); };
+        for (size_t k = 0; k < x.size() && k < y.size(); ++k) {
+            const auto& a = x[k]; const auto& b = y[k];
+            std::string bad;
+#define C11_PTR(m) if (!eqp(a.m, b.m)) bad += #m " ";
+#define C11_VAL(e) if (!(a.e == b.e)) bad += #e " ";
+            C11_PTR(gconsale) C11_PTR(gconsump) C11_PTR(gecon) C11_PTR(guide_rate) C11_PTR(wlist_manager) C11_PTR(well_order) C11_PTR(group_order)
+            C11_PTR(actions) C11_PTR(udq) C11_PTR(udq_active) C11_PTR(pavg) C11_PTR(wtest_config) C11_PTR(glo) C11_PTR(network) C11_PTR(network_balance)
+            C11_PTR(rpt_config) C11_PTR(rft_config) C11_PTR(rst_config) C11_PTR(bhp_defaults) C11_PTR(source)
+            C11_VAL(aqufluxs) C11_VAL(bcprop) C11_VAL(target_wellpi) C11_VAL(next_tstep)
+            C11_VAL(start_time()) C11_VAL(sim_step()) C11_VAL(month_num()) C11_VAL(year_num()) C11_VAL(first_in_month()) C11_VAL(first_in_year()) C11_VAL(save())
+            C11_VAL(tuning()) C11_VAL(nupcol()) C11_VAL(oilvap()) C11_VAL(events()) C11_VAL(wellgroup_events()) C11_VAL(geo_keywords()) C11_VAL(message_limits())
+            C11_VAL(whistctl()) C11_VAL(rptonly())
+#undef C11_PTR
+#undef C11_VAL
+            rep.count("schedule_member_comparisons", 44);
+            if (!bad.empty()) { rep.violation("member-differs-after-roundtrip:Schedule", "report step " + std::to_string(k) + ": member(s) " + bad + "of ScheduleState compare unequal after the round trip", witness); break; }
+        }
+        g_phase = cls + ":repack";
+    }
     // a third, independently written observer for the Schedule: upstream's own getter based notion of equivalence
     if constexpr (std::is_same_v<T, Schedule>) {
         g_phase = cls + ":Schedule::cmp";
